@@ -347,7 +347,9 @@ application_call:
 			break;
 		}
 
-		++_next_receive_seq;
+		// only a message that carried the expected number moves it on (a SequenceReset has just set it)
+		if (seqnum == _next_receive_seq || msg->get_msgtype() == Common_MsgType_SEQUENCE_RESET)
+			++_next_receive_seq;
 		if (retry_plog)
 			plog(from, Logger::Info, 1);
 
@@ -392,7 +394,8 @@ application_call:
 		{
 			slout_error << e.what() << " - inbound message rejected";
 			handle_outbound_reject(seqnum, msg, e.what());
-			++_next_receive_seq;
+			if (seqnum == _next_receive_seq)
+				++_next_receive_seq;
 			update_persist_seqnums();
 			if (_plogger && _plogger->has_flag(Logger::inbound))
 				plog(from, Logger::Info, 1);
